@@ -37,10 +37,50 @@ REQUIRED_PROBES = ['extreme_draw_consumed', 'start_zero_stop_below_one', 'stop_w
 it = None
 
 
+def _to_decimal(x):
+    import decimal
+    return decimal.Decimal(repr(float(x)))
+
+
+def _to_fraction(x):
+    return Fraction(float(x))
+
+
+_NUM_TYPES = {'decimal': _to_decimal, 'fraction': _to_fraction}
+_MODULE_STATE = []      # (container, pristine copy) for every mutable module-level container of iterutils
+_MODULE_CACHES = []     # module-level functions with an lru_cache
+
+
 def setup(root):
     global it
     import boltons.iterutils as m
     it = m
+    import copy
+    del _MODULE_STATE[:], _MODULE_CACHES[:]
+    for name, val in list(vars(m).items()):
+        if name.startswith('__'):
+            continue
+        if type(val) in (dict, list, set):
+            try:
+                _MODULE_STATE.append((val, copy.copy(val)))
+            except Exception:
+                pass
+        elif callable(getattr(val, 'cache_clear', None)):
+            _MODULE_CACHES.append(val)
+
+
+def _reset_module_state():
+    """A run is a function of its case: whatever the module remembers between calls (memo tables, caches) is put
+    back to its state at import before every case; histories that matter are part of the case itself."""
+    for cont, pristine in _MODULE_STATE:
+        if cont != pristine:
+            if isinstance(cont, list):
+                cont[:] = pristine
+            else:
+                cont.clear()
+                cont.update(pristine)
+    for fn in _MODULE_CACHES:
+        fn.cache_clear()
 
 
 EXT_HI = 1.0 - 2.0 ** -53
@@ -96,9 +136,11 @@ def gen_case(rng, tier):
     count = rng.choice([None, None, None, 0, 1, 2, k, k + 1, k + 3, 'repeat'])
     if rng.random() < 0.02:
         count = rng.choice([2 ** 63 - 1, 2 ** 63, 2 ** 64, 10 ** 30, 1500])     # explicit counts nobody would materialise
+    prior_count = rng.choice([0, 1, 2, 3, 'repeat']) if rng.random() < 0.1 else None
+    num_type = rng.choice(['decimal', 'fraction']) if rng.random() < 0.04 else None
     jitter = rng.choice([False, False, 0.1, -0.1, 0.5, -0.5, 1.0, -1.0, True, 0.999, -0.25])
     api = rng.choice(['backoff', 'backoff_iter'])
-    case = {'start': start, 'stop': stop, 'factor': factor, 'count': count, 'jitter': jitter,
+    case = {'start': start, 'stop': stop, 'factor': factor, 'count': count, 'jitter': jitter, 'prior_count': prior_count, 'num_type': num_type,
             'api': api, 'script': _gen_script(rng), 'k_hint': k, 'mutate': rng.choice(['clear', 'append'])}
     if rng.random() < 0.06:
         if rng.random() < 0.5:
@@ -217,9 +259,21 @@ def run_case(case):
     log = core.EventLog(keep=False)
     rnd = SimRandom(case['script'], log)
     it.random = rnd
+    _reset_module_state()
     s, t, f, c, j = case['start'], case['stop'], case['factor'], case['count'], case['jitter']
+    if case.get('prior_count') is not None:
+        # an earlier call in the same process with the same start/stop/factor but another count
+        try:
+            for _i, _v in zip(range(64), it.backoff_iter(S, T, count=case['prior_count'], factor=kw['factor'])):
+                pass
+        except Exception:
+            pass
     valid = _valid(case)
     kw = dict(count=c, factor=f, jitter=j)
+    # the same real numbers in another numeric type (the functions convert with float())
+    conv = _NUM_TYPES.get(case.get('num_type'), lambda x: x)
+    S, T = conv(s), conv(t)
+    kw['factor'] = conv(f)
     need = None
     if valid and c is None and f == 1.0:
         valid_scope = False          # default count with factor 1 is outside the statement
@@ -243,7 +297,7 @@ def run_case(case):
                 bound = 20 * (2 + int((math.log(t) - math.log(s)) / math.log(f))) + 1000 if s else 1000
                 n = 0
                 try:
-                    for _v in it.backoff_iter(s, t, **kw):
+                    for _v in it.backoff_iter(S, T, **kw):
                         n += 1
                         if n > bound:
                             out.fail('default-count-never-ends', n, 'backoff_iter(%r, %r, factor=%r) with the default count is still '
@@ -264,7 +318,7 @@ def run_case(case):
     try:
         # always consume the generator form first, bounded: a sequence that does not end where
         # it must is reported, not materialised
-        g = it.backoff_iter(s, t, **kw)
+        g = it.backoff_iter(S, T, **kw)
         lim = (need if endless else (need + 50 if need is not None else 50))
         for v in g:
             vals.append(v)
@@ -277,7 +331,7 @@ def run_case(case):
             # the list form must be the same sequence (same scripted draws)
             rnd2 = SimRandom(case['script'], None)
             it.random = rnd2
-            lst = it.backoff(s, t, **kw)
+            lst = it.backoff(S, T, **kw)
             it.random = rnd
             if list(lst) != vals:
                 out.fail('list-form-differs', 0, 'backoff(%r, %r, %r) returned %r, backoff_iter yields %r'
@@ -290,7 +344,7 @@ def run_case(case):
                 else:
                     lst.append(-1.0)
                 it.random = SimRandom(case['script'], None)
-                again = it.backoff(s, t, **kw)
+                again = it.backoff(S, T, **kw)
                 it.random = rnd
                 if list(again) != vals:
                     out.fail('result-shared-between-calls', 0,
@@ -311,7 +365,7 @@ def run_case(case):
             # the list form is its own entry point: it must refuse the same parameters
             try:
                 it.random = SimRandom(case['script'], None)
-                got = it.backoff(s, t, **kw)
+                got = it.backoff(S, T, **kw)
                 out.fail('invalid-parameters-accepted', 0, 'backoff(%r, %r, count=%r, factor=%r, jitter=%r) returned %r, expected ValueError'
                          % (s, t, c, f, j, list(got)[:8]), clause='ValueError', api='backoff')
             except ValueError:
